@@ -22,11 +22,14 @@ pub struct Program {
     /// initial entries (path, is_dir), ancestors are created as directories
     pub init: Vec<(String, bool)>,
     pub threads: Vec<Vec<Op>>,
+    /// initial files hold 100 000 bytes instead of one (implementations may treat big buffers
+    /// differently; what a concurrent reader may see does not depend on the size)
+    pub big: bool,
 }
 
 fn program_strategy() -> impl Strategy<Value = Program> {
-    (any::<u8>(), any::<u8>(), any::<u8>(), proptest::collection::vec(proptest::collection::vec((any::<u8>(), any::<u8>(), any::<u8>()), 1..=3), 2..=3))
-        .prop_map(|(pre_dirs, pre_files, pre_mixed, threads)| {
+    (any::<u8>(), any::<u8>(), any::<u8>(), proptest::collection::vec(proptest::collection::vec((any::<u8>(), any::<u8>(), any::<u8>()), 1..=3), 2..=3), 0u8..8)
+        .prop_map(|(pre_dirs, pre_files, pre_mixed, threads, big)| {
             let mut init = vec![];
             for (i, d) in DIRS.iter().enumerate() {
                 if pre_dirs & (1 << i) != 0 {
@@ -45,7 +48,7 @@ fn program_strategy() -> impl Strategy<Value = Program> {
                     _ => {}
                 }
             }
-            Program { init, threads: threads.iter().map(|t| t.iter().map(call_of).collect()).collect() }
+            Program { init, threads: threads.iter().map(|t| t.iter().map(call_of).collect()).collect(), big: big == 0 }
         })
 }
 
@@ -83,7 +86,7 @@ fn initial_tree(p: &Program) -> Tree {
         for a in ancestors_of(path) {
             t.m.entry(a).or_insert(Node::Dir);
         }
-        t.m.insert(path.clone(), if *is_dir { Node::Dir } else { Node::File(Arc::new(b"x".to_vec())) });
+        t.m.insert(path.clone(), if *is_dir { Node::Dir } else { Node::File(Arc::new(if p.big { vec![b'x'; 100_000] } else { b"x".to_vec() })) });
     }
     t
 }
@@ -118,7 +121,7 @@ pub fn family_programs() -> Vec<Program> {
         for a in &alphabet {
             for b1 in &alphabet {
                 for b2 in &alphabet {
-                    out.push(Program { init: init.clone(), threads: vec![vec![a.clone()], vec![b1.clone(), b2.clone()]] });
+                    out.push(Program { init: init.clone(), threads: vec![vec![a.clone()], vec![b1.clone(), b2.clone()]], big: false });
                 }
             }
         }
@@ -356,6 +359,7 @@ pub fn check_program(p: &Program, cap: u64, max_bound: usize, random_after: u64,
 fn program_to_json(p: &Program) -> Value {
     json!({
         "init": p.init.iter().map(|(q, d)| json!([q, d])).collect::<Vec<_>>(),
+        "big": p.big,
         "threads": p.threads.iter().map(|t| t.iter().map(crate::props::c18::op_to_json).collect::<Vec<_>>()).collect::<Vec<_>>(),
     })
 }
@@ -363,6 +367,7 @@ fn program_to_json(p: &Program) -> Value {
 fn program_from_json(v: &Value) -> Option<Program> {
     Some(Program {
         init: v.get("init")?.as_array()?.iter().filter_map(|e| Some((e.get(0)?.as_str()?.to_string(), e.get(1)?.as_bool()?))).collect(),
+        big: v.get("big").and_then(|x| x.as_bool()).unwrap_or(false),
         threads: v.get("threads")?.as_array()?.iter().map(|t| t.as_array().map(|a| a.iter().filter_map(crate::hist::op_from_json).collect()).unwrap_or_default()).collect(),
     })
 }
